@@ -172,6 +172,10 @@ func c07CheckToken(c *core.C, f *Family, i int) {
 	if wireID != s1.KeyID {
 		c.Violate("key-id-on-wire", fmt.Sprintf("RootKeyID() says %s, the wire says %s", s1.KeyID, wireID), wit(nil))
 	}
+	// ... and the id the caller gave when the root token of this family was created
+	if idText(l.T.KeyID) != wireID {
+		c.Violate("key-id-not-what-the-caller-gave", fmt.Sprintf("created with root key id %s, the wire carries %s", idText(l.T.KeyID), wireID), wit(nil))
+	}
 	// revocation ids are the signatures on the wire
 	all := d.Env.All()
 	if len(s1.RevIDs) == len(all) {
